@@ -131,7 +131,16 @@ func c10Gen(r *Rng, id int) c10Hist {
 		case x < 92:
 			h.Ops = append(h.Ops, c10Op{Op: "price", P: []string{"0.5", "0.8", "0.95", "1.05", "1.25", "2"}[r.Intn(6)]})
 		default:
-			h.Ops = append(h.Ops, c10Op{Op: "blocks", N: r.Pick(1, 1, 2, 3), DT: r.Pick(5, 5, 60, 3700, 86400, 604800)})
+			b := c10Op{Op: "blocks", N: r.Pick(1, 1, 2, 3), DT: r.Pick(5, 5, 60, 3700, 86400, 604800)}
+			h.Ops = append(h.Ops, b)
+			if x >= 98 {
+				// an open, a consolidating leverage-1 re-open of a position made unhealthy, a third party's liquidation request for it. Appended to
+				// the op the draw stood for, built from the numbers already drawn, and as a TRIPLE (the driver closes a block after every
+				// third op), so that every other op of a stored seed, and the block it lands in, stays what it was
+				h.Ops = append(h.Ops, c10Op{Op: "lev_open", U: u, Amt: fmt.Sprint(1000000 * (1 + b.DT%977)), Lev: levs[int(b.N)%len(levs)+1], Rel: 0},
+					c10Op{Op: "lev_reopen_unhealthy", U: u, Idx: int(b.N), Dir: int(b.DT % 4), Rel: int(b.N+b.DT) % 3},
+					c10Op{Op: "lev_cp", U: (u + 1) % 5, Items: []c10Item{{Kind: 0, Idx: int(b.N)}}})
+			}
 		}
 	}
 	return h
@@ -144,6 +153,22 @@ func c10Corpus() []c10Hist {
 		{Op: "lev_cp", U: 3, Items: []c10Item{{0, 0}, {0, 1}}}, {Op: "lev_close", U: 1, Idx: 0, Rel: 3}, {Op: "lev_close", U: 2, Idx: 1, Rel: 2}, {Op: "blocks", N: 1, DT: 3700},
 		{Op: "lev_cp", U: 3, Items: []c10Item{{0, 0}, {0, 1}}}, {Op: "blocks", N: 4, DT: 604800}, {Op: "lev_cp", U: 4, Items: []c10Item{{0, 1}, {0, 0}}},
 		{Op: "lev_liq_boundary", U: 3, Idx: 0, Dir: 2}, {Op: "lev_close", U: 1, Idx: 0, Rel: 5}}})
+}
+
+// c10Corpus3: consolidating re-opens that borrow nothing, into positions that are at / below / above the liquidation threshold
+func c10Corpus3() []c10Hist {
+	return []c10Hist{
+		{Ops: []c10Op{ // 5x, the asset halves, nobody liquidates; the owner tops up 1000 uusdc with leverage 1; then a third party's request
+			{Op: "lev_open", U: 1, Amt: "1000000000", Lev: "5"}, {Op: "lev_reopen_unhealthy", U: 1, Idx: 0, Dir: 0, Rel: 2},
+			{Op: "lev_cp", U: 3, Items: []c10Item{{0, 0}}}, {Op: "blocks", N: 1, DT: 5}}},
+		{Ops: []c10Op{ // two owners; health steered to just below the factor (refused) and, for the other position, just above (accepted, stays above)
+			{Op: "lev_open", U: 1, Amt: "300000000", Lev: "8"}, {Op: "lev_open", U: 2, Amt: "2000000000", Lev: "3"}, {Op: "blocks", N: 1, DT: 3700},
+			{Op: "lev_reopen_unhealthy", U: 1, Idx: 0, Dir: 1, Rel: 0}, {Op: "lev_reopen_unhealthy", U: 1, Idx: 0, Dir: 3, Rel: 0},
+			{Op: "lev_reopen_unhealthy", U: 1, Idx: 1, Dir: 2, Rel: 1}, {Op: "lev_cp", U: 3, Items: []c10Item{{0, 0}, {0, 1}}}, {Op: "blocks", N: 1, DT: 5}}},
+		{Ops: []c10Op{ // a 9.5x position that has accrued two weeks of interest; dust re-opens at the threshold
+			{Op: "lev_open", U: 2, Amt: "50000000", Lev: "9.5"}, {Op: "blocks", N: 2, DT: 604800}, {Op: "lev_reopen_unhealthy", U: 2, Idx: 0, Dir: 1, Rel: 0},
+			{Op: "lev_reopen_unhealthy", U: 2, Idx: 0, Dir: 0, Rel: 1}, {Op: "lev_cp", U: 4, Items: []c10Item{{0, 0}}}}},
+	}
 }
 
 func c10Corpus0() []c10Hist {
@@ -1018,6 +1043,14 @@ func (r *c10Run) healthOfOpened2(ctx sdk.Context, perp bool, owner sdk.AccAddres
 		if c10Safely(func() { h, err = r.w.App.LeveragelpKeeper.GetPositionHealth(pc, pos) }) || err != nil {
 			return "", p, h, stored, false
 		}
+		// the health an open is judged by is NOT the keeper's alone: exit value of the shares committed at the position address over the
+		// debt record must agree with it, and is the value used
+		if hi, ok := lIndependentLevHealth(r.w, pc, pos); ok {
+			if !hi.Equal(h) {
+				r.fail("C10:lev-health-differs-from-exit-value-over-debt", fmt.Sprintf("position %s/%d after an open: keeper health %s, exit value over debt %s", pos.Address, pos.Id, h, hi))
+			}
+			h = hi
+		}
 	}
 	if stored.IsNil() {
 		return "", p, h, stored, false
@@ -1388,6 +1421,32 @@ func (r *c10Run) exec(op c10Op) TxResult {
 		msg := &perptypes.MsgOpen{Creator: p.Address, Position: p.Position, Leverage: dec("0"), TradingAsset: p.TradingAsset,
 			Collateral: sdk.NewCoin(p.CollateralAsset, sdkmath.NewInt([]int64{1, 1000, 100000}[op.Dir%3])), TakeProfitPrice: p.TakeProfitPrice, StopLossPrice: dec("0"), PoolId: p.AmmPoolId}
 		return r.open(true, msg, owner)
+	case "lev_reopen_unhealthy":
+		// an existing leveraged-LP position has become unhealthy and nobody has liquidated it yet: the market is steered so that its health
+		// is just below (Rel 0) / just above (Rel 1) the safety factor, or the asset simply loses half its price (Rel 2); then the OWNER sends
+		// a consolidating MsgOpen that borrows nothing (leverage 1; Dir 3: leverage 1.000001 on a dust collateral, whose leveraged amount
+		// truncates to the collateral) with a collateral too small to matter: accepted only if the position it leaves is above the factor
+		ps := w.App.LeveragelpKeeper.GetAllPositions(w.QCtx())
+		if len(ps) == 0 {
+			return TxResult{Err: fmt.Errorf("skip")}
+		}
+		p := ps[op.Idx%len(ps)]
+		if op.Rel%3 == 2 {
+			m.SetPrice(ATOM, m.Prices[ATOM].Mul(dec("0.5")))
+		} else {
+			r.x.steer(lOp{Op: "steer", Dir: 1, Idx: op.Idx, Rel: op.Rel % 3})
+		}
+		r.count(fmt.Sprintf("lev_reopen_unhealthy_rel%d", op.Rel%3))
+		lev, coll := dec("1"), sdkmath.NewInt([]int64{1000, 1, 100000, 7}[op.Dir%4])
+		if op.Dir%4 == 3 {
+			lev = dec("1.000001")
+		}
+		sl := p.StopLossPrice
+		if sl.IsNil() {
+			sl = dec("0")
+		}
+		msg := &levtypes.MsgOpen{Creator: p.Address, CollateralAsset: USDC, CollateralAmount: coll, AmmPoolId: p.AmmPoolId, Leverage: lev, StopLossPrice: sl}
+		return r.open(false, msg, sdk.MustAccAddressFromBech32(p.Address))
 	case "lev_close":
 		ps := w.App.LeveragelpKeeper.GetAllPositions(w.QCtx())
 		if len(ps) == 0 {
@@ -1591,6 +1650,7 @@ func TestC10(t *testing.T) {
 		for i := len(hists); i < n; i++ {
 			hists = append(hists, c10Gen(NewRng(uint64(seed), uint64(i)), i))
 		}
+		hists = append(hists, c10Corpus3()...) // after the others so that those keep their indices
 	}
 	RunParallel(len(hists), func(i int) {
 		h := hists[i]
